@@ -174,22 +174,67 @@ func c04b(c *Ctx) {
 	c.OK("pendingLeaves writers", fmt.Sprintf("%d function(s) write pool.pendingLeaves", len(byFunc)), nil)
 }
 
-func c04c(c *Ctx) {
-	f := c.Fn("ctlog.(*Log).uploadIssuer")
+// issuerVerifier returns the function that performs the issuer's storage
+// verification (Fetch / bytes.Equal / Upload): uploadIssuer itself, or the one
+// same-package helper it delegates to (with the delegating call sites).
+func issuerVerifier(p *Program) (f, v *Func, vcalls []Site) {
+	f = p.Fn("ctlog.(*Log).uploadIssuer")
 	if f == nil {
+		return nil, nil, nil
+	}
+	if len(f.Calls(specUpload)) > 0 {
+		return f, f, nil
+	}
+	info := f.Info()
+	for _, s := range f.Find(func(n ast.Node) bool { _, ok := n.(*ast.CallExpr); return ok }) {
+		fn, ok := calleeObj(info, s.X.(*ast.CallExpr)).(*types.Func)
+		if !ok {
+			continue
+		}
+		g := p.FuncOf(fn.Origin())
+		if g == nil || g == f || g.Body == nil || g.Pkg != f.Pkg || len(g.Calls(specUpload)) == 0 {
+			continue
+		}
+		if v != nil && v != g {
+			return f, nil, nil // more than one candidate: not a plain delegation
+		}
+		v = g
+		s.Call = s.X.(*ast.CallExpr)
+		vcalls = append(vcalls, s)
+	}
+	return f, v, vcalls
+}
+
+func c04c(c *Ctx) {
+	f, v, vcalls := issuerVerifier(c.P)
+	if f == nil {
+		c.Unk("ctlog.(*Log).uploadIssuer", "function not found")
 		return
 	}
+	if v == nil {
+		c.Unk(f.Name, "the issuer's Backend.Upload is neither in uploadIssuer nor in a single same-package helper it calls")
+		return
+	}
+	c.touch(v)
 	info := f.Info()
 	g := f.Graph()
 	im := c.P.fieldVar(pkgCtlog, "Log", "issuers")
 	var marks []Site
 	for _, st := range f.StoresTo(im) {
+		if ix, ok := ast.Unparen(st.Lhs).(*ast.IndexExpr); ok && st.Rhs != nil {
+			_ = ix
+			if b, isConst := constBool(info, st.Rhs); isConst && !b {
+				continue // issuers[fp] = false un-records; it never makes an issuer trusted
+			}
+		}
 		marks = append(marks, st.Site)
 	}
-	fetch, up := f.Calls(specFetch), f.Calls(specUpload)
-	eqs := f.Find(func(n ast.Node) bool {
+	vinfo := v.Info()
+	vg := v.Graph()
+	fetch, up := v.Calls(specFetch), v.Calls(specUpload)
+	eqs := v.Find(func(n ast.Node) bool {
 		call, ok := n.(*ast.CallExpr)
-		return ok && matchCallee(info, call, Callee{"bytes", "", "Equal"})
+		return ok && matchCallee(vinfo, call, Callee{"bytes", "", "Equal"})
 	})
 	if len(marks) == 0 || len(fetch) == 0 || len(up) == 0 || len(eqs) == 0 {
 		c.Unk(f.Name, fmt.Sprintf("anchors not found: marks=%d fetch=%d upload=%d equal=%d", len(marks), len(fetch), len(up), len(eqs)))
@@ -197,7 +242,7 @@ func c04c(c *Ctx) {
 	}
 	upOK, _ := gateEdges(up, OutNil)
 	feOK, _ := gateEdges(fetch, OutNil)
-	eqOK := g.EdgesImplying(func(a Atom) bool {
+	eqOK := vg.EdgesImplying(func(a Atom) bool {
 		call, ok := ast.Unparen(a.E).(*ast.CallExpr)
 		return ok && a.Val && call == eqs[0].Call
 	})
@@ -209,17 +254,48 @@ func c04c(c *Ctx) {
 		c.Bad(inst, eqs[0].Pos(), "the result of comparing the existing issuer is not used")
 	default:
 		bad := false
-		if pt, _ := g.ReachableFromEntry(Cut{Edges: unionEdges(upOK, eqOK)}, atAnySite(marks)); pt != nil {
-			c.Bad(inst, marks[0].Pos(), "an issuer can be recorded as present without a successful upload or a byte-equal existing object")
+		// "verified" = the points of v reached through Upload ok or (Fetch ok and Equal)
+		var verified []Site // where, in v, the verification outcome is consumed
+		if v == f {
+			verified = marks
+		} else {
+			for _, r := range v.Returns() {
+				if e := v.errResultExpr(r.X.(*ast.ReturnStmt)); e != nil && v.mayBeNilError(e) {
+					verified = append(verified, r)
+				}
+			}
+			if len(verified) == 0 {
+				c.Unk(inst, v.Name+" has no successful return")
+				bad = true
+			}
+		}
+		what := "an issuer can be recorded as present"
+		if v != f {
+			what = v.Name + " can report success"
+		}
+		if pt, _ := vg.ReachableFromEntry(Cut{Edges: unionEdges(upOK, eqOK)}, atAnySite(verified)); pt != nil {
+			c.Bad(inst, verified[0].Pos(), what+" without a successful upload or a byte-equal existing object")
 			bad = true
 		}
-		if pt, _ := g.ReachableFromEntry(Cut{Edges: unionEdges(upOK, feOK)}, atAnySite(marks)); pt != nil {
-			c.Bad(inst, marks[0].Pos(), "an issuer can be recorded as present although neither the upload nor the fetch succeeded")
+		if pt, _ := vg.ReachableFromEntry(Cut{Edges: unionEdges(upOK, feOK)}, atAnySite(verified)); pt != nil {
+			c.Bad(inst, verified[0].Pos(), what+" although neither the upload nor the fetch succeeded")
 			bad = true
 		}
-		// success return only after the mark (or the cache hits)
+		wit := append(v.WitEdges(upOK), v.WitEdges(eqOK)...)
+		if v != f {
+			// the record is made only after the helper reported success
+			vOK, untested := gateEdges(vcalls, OutNil)
+			if len(untested) > 0 || len(vOK) == 0 {
+				c.Bad(inst, vcalls[0].Pos(), "the result of "+v.Name+" is not tested")
+				bad = true
+			} else if pt, _ := g.ReachableFromEntry(Cut{Edges: vOK}, atAnySite(marks)); pt != nil {
+				c.Bad(inst, marks[0].Pos(), "the issuer is recorded as present (and later submissions skip the upload) before "+v.Name+" has verified or uploaded it: a concurrent submission of another certificate with the same issuer enters the pool while the issuer is not in storage")
+				bad = true
+			}
+			wit = append(wit, f.WitEdges(vOK)...)
+		}
 		if !bad {
-			c.add(Result{Instance: inst, Verdict: Discharged, Evals: 2, Sites: sitePositions(marks), Detail: "issuers[fp] = true only via Upload ok or (Fetch ok and bytes.Equal)", Witnesses: append(f.WitEdges(upOK), f.WitEdges(eqOK)...)})
+			c.add(Result{Instance: inst, Verdict: Discharged, Evals: 2, Sites: sitePositions(marks), Detail: "issuers[fp] = true only via Upload ok or (Fetch ok and bytes.Equal)", Witnesses: wit})
 		}
 	}
 	// nil returns: cache hit or after the mark
@@ -246,35 +322,61 @@ func c04c(c *Ctx) {
 	} else {
 		c.OK(f.Name+" success", "nil only on a cache hit or after recording the verified issuer", sitePositions(successReturns(f)))
 	}
-	// operands
+	// operands (through the delegation, if any: a parameter of the helper stands for the
+	// argument uploadIssuer passes for it)
 	issuerP := f.paramObj("issuer")
+	isIssuer := func(e ast.Expr) bool { return objOf(vinfo, e) == issuerP && issuerP != nil }
+	isFingerprint := func(fn *Func, e ast.Expr, isIss func(ast.Expr) bool) bool {
+		h, ok := fn.IsCallResult(e, -1, Callee{"crypto/sha256", "", "Sum256"})
+		return ok && len(h.Args) == 1 && isIss(h.Args[0])
+	}
+	isFp := func(e ast.Expr) bool { return isFingerprint(v, e, isIssuer) }
+	if v != f {
+		argOf := func(e ast.Expr) ast.Expr { // the caller's expression for a parameter of v
+			o := objOf(vinfo, e)
+			if o == nil || len(vcalls) != 1 {
+				return nil
+			}
+			return argForParam(v, vcalls[0].Call, o)
+		}
+		isIssuer = func(e ast.Expr) bool {
+			a := argOf(e)
+			return a != nil && objOf(info, a) == issuerP && issuerP != nil
+		}
+		isFp = func(e ast.Expr) bool {
+			if isFingerprint(v, e, isIssuer) {
+				return true
+			}
+			a := argOf(e)
+			return a != nil && isFingerprint(f, a, func(x ast.Expr) bool { return objOf(info, x) == issuerP && issuerP != nil })
+		}
+	}
 	var p []string
 	pathOK := func(e ast.Expr) bool {
-		call, ok := f.IsCallResult(e, -1, Callee{"fmt", "", "Sprintf"})
+		call, ok := v.IsCallResult(e, -1, Callee{"fmt", "", "Sprintf"})
 		if !ok || len(call.Args) != 2 {
 			return false
 		}
-		if s, _ := constString(info, call.Args[0]); s != "issuer/%x" {
+		if s, _ := constString(vinfo, call.Args[0]); s != "issuer/%x" {
 			return false
 		}
-		h, ok := f.IsCallResult(call.Args[1], -1, Callee{"crypto/sha256", "", "Sum256"})
-		return ok && len(h.Args) == 1 && objOf(info, h.Args[0]) == issuerP
+		return isFp(call.Args[1])
 	}
-	if !pathOK(argByName(info, fetch[0].Call, "key")) || !pathOK(argByName(info, up[0].Call, "key")) {
+	if !pathOK(argByName(vinfo, fetch[0].Call, "key")) || !pathOK(argByName(vinfo, up[0].Call, "key")) {
 		p = append(p, "fetch/upload key is not issuer/<sha256(issuer)>")
 	}
-	if objOf(info, argByName(info, up[0].Call, "data")) != issuerP {
+	if !isIssuer(argByName(vinfo, up[0].Call, "data")) {
 		p = append(p, "the uploaded bytes are not the issuer")
 	}
 	a0, a1 := eqs[0].Call.Args[0], eqs[0].Call.Args[1]
-	_, fetched := f.IsCallResult(a0, 0, specFetch)
-	if !(fetched && objOf(info, a1) == issuerP) {
-		if _, f2 := f.IsCallResult(a1, 0, specFetch); !(f2 && objOf(info, a0) == issuerP) {
+	_, fetched := v.IsCallResult(a0, 0, specFetch)
+	if !(fetched && isIssuer(a1)) {
+		if _, f2 := v.IsCallResult(a1, 0, specFetch); !(f2 && isIssuer(a0)) {
 			p = append(p, "bytes.Equal does not compare the fetched object with the issuer")
 		}
 	}
 	if len(p) > 0 {
-		c.Bad(f.Name+" operands", f.Pos(f.Decl), strings.Join(p, "; "))
+		c.Bad(f.Name+" operands", v.Pos(v.Decl), strings.Join(p, "; "))
 	} else {
 		c.add(Result{Instance: f.Name + " operands", Verdict: Discharged, Evals: 3, Detail: "key issuer/%x of sha256(issuer) for fetch and upload; Equal(fetched, issuer)"})
 	}
